@@ -219,7 +219,7 @@ m = {
    "guard": "fidget_verif",
    "enable": "RUSTFLAGS=\"--cfg fidget_verif --check-cfg cfg(fidget_verif)\" (set in /verif/harness/.cargo/config.toml; never in /repo)",
    "baseline_off_cmd": "cd /repo && cargo nextest run --workspace --no-fail-fast --test-threads 8 --offline || cargo test --workspace --no-fail-fast --offline",
-   "source_commits": ["16ce250", "849e604", "9be9fb2", "70c2606", "c3eb3a3", "364e751", "3e8c7e0", "f1682f1"],
+   "source_commits": ["16ce250", "849e604", "9be9fb2", "70c2606", "c3eb3a3", "364e751", "3e8c7e0", "f1682f1", "c0263df"],
    "add_only": True,
  },
  "engines": [{"name": "vcheck", "path": "bin/vcheck", "serves_properties": sorted(CLAIMED),
